@@ -105,7 +105,7 @@ CLAIMS = {
               "TxIn, Transaction, BlockHeader/ExtData) incl. flag folding and byte order; length accounting of every encoder (each nested "
               "encode is summed or a fixed-width literal is added); the three varint tables; bounded allocation on decoder paths; the primitive layer (fixed-width integers as little-endian "
               "bytes of their own width, slices whole, compact size then bytes, fixed arrays), the identity byte views of the hash and root "
-              "newtypes, the lock-time threshold tables, the null/default values of the transaction types, and that no encoder has an "
+              "newtypes, the lock-time threshold tables, the null/default values of the transaction types, the generic slice encoder, and that no encoder has an "
               "explicit error return. Byte "
               "identity of secp256k1 parse/serialize is trusted; equality of values is argued per field, not executed."),
         technique="sibling codec agreement on MIR event sequences + exhaustive decision tables over tag bytes + dominance of canonicity guards + return-value dataflow",
@@ -116,7 +116,7 @@ CLAIMS = {
               "hand-written Decodable loops (reader) of Global, Input and Output are mutually inverse — same field per (key type, "
               "proprietary subtype) for all 70 keys, equal Serialize/Deserialize key and value types, no shared key, every struct field "
               "emitted and parsed; every unkeyed arm is guarded by empty key data and an unset field with InvalidKey/DuplicateKey edges, "
-              "keyed arms reject occupied entries, hash preimages are checked before insertion; framing (magic, separator, order, 0x00 "
+              "keyed arms reject occupied entries (every entry() on the proprietary/unknown catch-all maps has its own DuplicateKey edge), hash preimages are checked before insertion; framing (magic, separator, order, 0x00 "
               "terminators, NoMorePairs, sanity_check dominating Ok, 10 000 caps); mandatory-field errors with their exact presence conditions; "
               "the scalar pair the Global reader accepts is the writer's; the 30 paired PSET value codecs are inverse pairs of one kind; who-may-write rule for the "
               "counts with paired vector operations; tap-tree leaves kept/written/read in DFS order (re-encoding fixpoint); ELIP-100/102 "
@@ -240,7 +240,7 @@ CLAIMS = {
               "Address::from_script takes the payload from the byte range the guarding predicate establishes and dispatches in the "
               "specified order; builders emit the opcodes the predicates test at the same positions; the push-size thresholds of "
               "push_slice, the minimal-push thresholds of Instructions::next and the PUSHDATA operand widths agree; small-integer, "
-              "OP_TRUE/OP_FALSE and verify-folding tables; identity byte views of Script/Builder; exhaustive 256-code table that an opcode "
+              "OP_TRUE/OP_FALSE and verify-folding tables; identity byte views of Script/Builder (Builder::from(bytes) remembers the last instruction only if it is an opcode); exhaustive 256-code table that an opcode "
               "classified Ordinary (Legacy context) is in the ordinary-opcode table; for the clause that an address's text form parses back, C06's rules "
               "(payload layouts, program-length and padding tables of the blech32 reader, prefix matching) are evaluated here as well. read_scriptint refuses only more than four bytes; script-number arithmetic itself and byte-level builder/iterator round trips are not decided."),
         technique="exact truth tables of boolean predicates (all valuations of their atoms) + table agreement between sibling builder/parser",
